@@ -1,2 +1,17 @@
-(* placeholder *)
-From SC Require Import PyGen.
+(* C02 -- generated C++ dictionary and classes mirror the EXPRESS schema exactly: the clause
+   that is an algorithm (attribute order of an instance).  Only statements closed by [exact]. *)
+From Coq Require Import List NArith Bool.
+From SC Require Import PyGen PyGen_Proofs CxxAttrs CxxAttrs_Proofs.
+Import ListNotations.
+
+(* A freshly created instance exposes its inherited-then-own explicit attributes in Part 21
+   order, for every schema: any number of entities, any inheritance shape. *)
+Theorem c02_instance_attributes_in_part21_order : forall G fuel e,
+  cxx_order fuel G e = p21_ctor fuel G e.
+Proof. exact cxx_order_is_p21. Qed.
+Print Assumptions c02_instance_attributes_in_part21_order.
+
+Theorem c02_example :
+  cxx_order 5 G_diamond (mk 4 [2; 3]%N 1) = p21_ctor 5 G_diamond (mk 4 [2; 3]%N 1) /\
+  length (cxx_order 5 G_diamond (mk 4 [2; 3]%N 1)) = 4%nat.
+Proof. exact cxx_diamond. Qed.
